@@ -68,7 +68,7 @@ def correspondence(ctx):
     crop_opts = [dict(S.BASE_OPTION, scenario=s) for s in ["all_resilient_foods", "all_resilient_foods_and_more_area", "relocated_crops", "greenhouse",
                                                            "no_resilient_foods"]]
     if ctx.quick:
-        rows = rng.sample(rows, 30)
+        rows = S.extreme_rows(rows) + rng.sample(rows, 22)
         opts = crop_opts + S.gen_options(rng, 2)
     else:
         opts = crop_opts + S.gen_options(rng, 5) + [dict(o, crop_disruption="zero", NMONTHS=rng.choice([48, 84])) for o in crop_opts]
